@@ -76,7 +76,9 @@ func c18NewWorld() *c18World {
 		if ver == bversion.VersionB1 {
 			b.ManifestURL = c18MustURL("https://a.test/manifest.json")
 		}
-		for i, u := range []string{"https://a.test/", "https://a.test/second?x=1"} {
+		// (the third URL carries a fragment and credentials: the writer takes them, and a serializer that
+		// "normalises" its input in place shows in the snapshot below)
+		for i, u := range []string{"https://a.test/", "https://a.test/second?x=1", "https://user:pw@a.test/doc.html?q=1#section-2"} {
 			b.Exchanges = append(b.Exchanges, &bundle.Exchange{
 				Request:  bundle.Request{URL: c18MustURL(u)},
 				Response: bundle.Response{Status: 200 + i, Header: http.Header{"Content-Type": {"text/plain"}}, Body: []byte(fmt.Sprintf("body-%d-%s", i, strings.Repeat("x", 30*i)))},
@@ -218,6 +220,56 @@ func c18Snapshot(w *c18World) []byte {
 	for _, v := range sxgversion.AllVersions {
 		b = append(b, w.ex[v].Payload...)
 		b = append(b, w.ex[v].SignatureHeaderValue...)
+	}
+	// the structured inputs, field by field: URLs (every component), status, header maps (sorted), bodies,
+	// certificate chain blobs, signer fields
+	dumpURL := func(u *url.URL) {
+		if u == nil {
+			b = append(b, "<nil>"...)
+			return
+		}
+		b = append(b, fmt.Sprintf("%s|%s|%s|%s|%s|%s|%s|%s|%v|%v;", u.Scheme, u.Opaque, u.User.String(), u.Host, u.Path, u.RawPath, u.RawQuery, u.Fragment+"/"+u.RawFragment, u.ForceQuery, u.OmitHost)...)
+	}
+	dumpHdr := func(h http.Header) {
+		var ks []string
+		for k := range h {
+			ks = append(ks, k)
+		}
+		sort.Strings(ks)
+		for _, k := range ks {
+			b = append(b, fmt.Sprintf("%q=%q;", k, h[k])...)
+		}
+	}
+	for _, bn := range []*bundle.Bundle{w.bundleB1, w.bundleB2} {
+		dumpURL(bn.PrimaryURL)
+		dumpURL(bn.ManifestURL)
+		b = append(b, fmt.Sprintf("%s n=%d;", bn.Version, len(bn.Exchanges))...)
+		for _, e := range bn.Exchanges {
+			dumpURL(e.Request.URL)
+			dumpHdr(e.Request.Header)
+			b = append(b, fmt.Sprintf("%d;", e.Response.Status)...)
+			dumpHdr(e.Response.Header)
+			b = append(b, e.Response.Body...)
+		}
+	}
+	b = append(b, fmt.Sprintf("%d;", w.resp.Status)...)
+	dumpHdr(w.resp.Header)
+	b = append(b, w.resp.Body...)
+	for _, v := range sxgversion.AllVersions {
+		e := w.ex[v]
+		b = append(b, fmt.Sprintf("%s|%s|%s|%d;", e.Version, e.RequestURI, e.RequestMethod, e.ResponseStatus)...)
+		dumpHdr(e.RequestHeaders)
+		dumpHdr(e.ResponseHeaders)
+	}
+	for _, ac := range w.chain {
+		b = append(b, ac.Cert.Raw...)
+		b = append(b, ac.OCSPResponse...)
+		b = append(b, ac.SCTList...)
+	}
+	if w.signer != nil {
+		dumpURL(w.signer.CertUrl)
+		dumpURL(w.signer.ValidityUrl)
+		b = append(b, fmt.Sprintf("%d|%d|%d;", w.signer.Date.UnixNano(), w.signer.Expires.UnixNano(), len(w.signer.Certs))...)
 	}
 	return b
 }
